@@ -50,6 +50,27 @@ def flatten_oracle(atom, st):
 
 
 def rule_flatten(ctx):
+    """R1-R3.  Two readings of flatten decide the same clauses: the structural one below (_rule_flatten_structural: contiguity guard dominating the regrouping, C-order
+    reshape, members in array order, transpose-and-recurse making progress - it knows the function as a base case plus a recursive call) and the interpretation of
+    flatten on abstract arrays (scenario table: 1-d to 3-d arrays, every subset of the dimensions in every order, insert=, positions and names).  The structural
+    reading counts when it ends without a complaint; when it complains - a shape it does not know as much as a defect - the table decides."""
+    from ..report import Trial
+    from ..scenario_rule import rule_scenarios
+    trial = Trial(ctx)
+    try:
+        _rule_flatten_structural(trial)
+    except AnalysisError as e:
+        trial.complaints.append(str(e)[:80])
+    if not trial.complaints:
+        trial.commit()
+        return
+    trial.discard()
+    for rid, what in (('R1', 'order coherence'), ('R2', 'splice coherence'), ('R3', 'recursion progress')):
+        ctx.rule(rid, what, 1)
+        rule_scenarios(ctx, rid, only=RS + 'flatten', title='%s (flatten by interpretation; the structural reading gave up on: %s)' % (what, '; '.join(trial.complaints[:2])))
+
+
+def _rule_flatten_structural(ctx):
     ctx.rule('R1', 'order coherence', 4)
     ctx.rule('R2', 'splice coherence', 2)
     ctx.rule('R3', 'recursion progress', 2)
